@@ -494,6 +494,12 @@ pub fn exec(a: &[&str], out: &mut Out) -> (String, bool) {
             let r = json_syntax::from_value::<Value>(v);
             match r { Ok(w) => (format!("ok {}", show_value(&w)), true), Err(e) => (format!("E {}", err_class(&e.to_string())), true) }
         }
+        ("fromobj", 3) => {
+            let v = match parse_value(a[1]) { Some(v) => v, None => return ("bad-op".into(), false) };
+            if num_table(&v) != a[2] { return ("bad-op".into(), false); }
+            let r = json_syntax::from_value::<json_syntax::Object>(v);
+            match r { Ok(w) => (format!("ok {}", show_value(&Value::Object(w))), true), Err(e) => (format!("E {}", err_class(&e.to_string())), true) }
+        }
         _ => ("bad-op".into(), false),
     }
 }
@@ -662,12 +668,13 @@ pub fn gen(out: &mut Out, thorough: bool, focus: &str) {
         let n = if thorough { 60000 } else { 1500 };
         let token = cps_inner("$serde_json::private::Number");
         for s in [format!("{{k{};s31.2e.35;}}", token), format!("{{k{};s78;}}", token), format!("{{k{};n}}", token), format!("{{k{};s31;k61;n}}", token), format!("{{k61;nk{};s31;}}", token), format!("[{{k{};s2d.30.2e.35.65.2b.31.30;}}]", token), "{k61;nk62;tk61;f}".to_string(), "{}".to_string(), "[]".to_string()] {
-            if let Some(v) = parse_value(&s) { l(format!("serde fromvalm {} {}", s, num_table(&v)), out); }
+            if let Some(v) = parse_value(&s) { l(format!("serde fromvalm {} {}", s, num_table(&v)), out); l(format!("serde fromobj {} {}", s, num_table(&v)), out); }
         }
         for i in 0..n {
             let mut v = if i % 2 == 0 { crate::print::gen_value(&mut out.rng, 0, 3) } else { crate::canon::gen_ijson(&mut out.rng, 0, 3) };
             if i % 7 == 3 { v = mutate_value(&mut out.rng, &v); }
             l(format!("serde fromvalm {} {}", show_value(&v), num_table(&v)), out);
+            if i % 3 == 0 || matches!(v, Value::Object(_)) { l(format!("serde fromobj {} {}", show_value(&v), num_table(&v)), out); }
         }
         return;
     }
